@@ -2,8 +2,10 @@ package main
 
 import (
 	"go/ast"
+	"go/token"
 	"go/types"
 	"math/big"
+	"math/bits"
 	"strings"
 )
 
@@ -141,6 +143,76 @@ func (ex *Exec) callStd(full string, fobj *types.Func, args []Value, e *ast.Call
 			add[j] = bs[i]
 		}
 		return ex.appendConcrete(s, add, types.Typ[types.Uint8], e)
+	case "math/bits.Len64", "math/bits.LeadingZeros64", "math/bits.TrailingZeros64", "math/bits.OnesCount64", "math/bits.ReverseBytes64":
+		x := args[0].(*Term)
+		name := full[len("math/bits."):]
+		it := machType(types.Typ[types.Int])
+		if x.IsConst() {
+			v := x.val.Uint64()
+			var r uint64
+			switch name {
+			case "Len64":
+				r = uint64(bits.Len64(v))
+			case "LeadingZeros64":
+				r = uint64(bits.LeadingZeros64(v))
+			case "TrailingZeros64":
+				r = uint64(bits.TrailingZeros64(v))
+			case "OnesCount64":
+				r = uint64(bits.OnesCount64(v))
+			case "ReverseBytes64":
+				return ex.constOf(new(big.Int).SetUint64(bits.ReverseBytes64(v)), u64t)
+			}
+			return ex.constOf(new(big.Int).SetUint64(r), it)
+		}
+		if !ex.mode.BV {
+			ex.unsupported("%s of a symbolic word outside bv mode at %s", full, ex.where(e))
+		}
+		bit := func(i int) *Term { return Eq(Extract(x, i, i), BVC(bi(1), 1)) }
+		k := func(n int) *Term { return BVC(bi(int64(n)), 64) }
+		switch name {
+		case "Len64", "LeadingZeros64":
+			r := k(0)
+			if name == "LeadingZeros64" {
+				r = k(64)
+			}
+			for i := 0; i < 64; i++ {
+				v := i + 1
+				if name == "LeadingZeros64" {
+					v = 63 - i
+				}
+				r = Ite(bit(i), k(v), r)
+			}
+			return r
+		case "TrailingZeros64":
+			r := k(64)
+			for i := 63; i >= 0; i-- {
+				r = Ite(bit(i), k(i), r)
+			}
+			return r
+		case "OnesCount64":
+			r := k(0)
+			for i := 0; i < 64; i++ {
+				r = BVAdd(r, ZExt(Extract(x, i, i), 64))
+			}
+			return r
+		default: // ReverseBytes64
+			r := Extract(x, 7, 0)
+			for i := 1; i < 8; i++ {
+				r = Concat(r, Extract(x, 8*i+7, 8*i))
+			}
+			return r
+		}
+	case "math/bits.RotateLeft64":
+		x, kk := args[0].(*Term), args[1].(*Term)
+		if !kk.IsConst() {
+			ex.unsupported("bits.RotateLeft64 by a symbolic amount at %s", ex.where(e))
+		}
+		n := int(new(big.Int).Mod(kk.val, bi(64)).Int64())
+		if n == 0 {
+			return x
+		}
+		c := func(v int) *Term { return ex.constOf(bi(int64(v)), u64t) }
+		return ex.binop(token.OR, ex.binop(token.SHL, x, c(n), u64t, ex.where(e)), ex.binop(token.SHR, x, c(64-n), u64t, ex.where(e)), u64t, ex.where(e))
 	case "crypto/subtle.ConstantTimeSelect":
 		v, x, y := args[0].(*Term), args[1].(*Term), args[2].(*Term)
 		it := machType(types.Typ[types.Int])
